@@ -49,3 +49,34 @@ pub use zlink_macros::ReplyError;
 
 #[doc(hidden)]
 pub mod test_utils;
+
+/// Verification hooks (only with `--cfg zlink_verif`).
+#[cfg(zlink_verif)]
+#[doc(hidden)]
+pub mod verif {
+    /// Outcome of [`to_slice`].
+    #[derive(Debug, Clone, Copy, PartialEq, Eq)]
+    pub enum SerError {
+        /// The slice was too small.
+        BufferTooSmall,
+        /// A map key was not string-like.
+        KeyMustBeAString,
+    }
+
+    /// The private JSON serializer, writing into `buf`.
+    pub fn to_slice<T: serde::Serialize + ?Sized>(
+        value: &T,
+        buf: &mut [u8],
+    ) -> core::result::Result<usize, SerError> {
+        crate::json_ser::to_slice(value, buf).map_err(|e| match e {
+            crate::json_ser::Error::BufferTooSmall => SerError::BufferTooSmall,
+            crate::json_ser::Error::KeyMustBeAString => SerError::KeyMustBeAString,
+        })
+    }
+
+    /// The buffer growth step and the (hook-lowered) limit.
+    pub const LIMITS: (usize, usize) = (
+        crate::connection::BUFFER_SIZE,
+        crate::connection::VERIF_MAX_BUFFER_SIZE,
+    );
+}
